@@ -125,6 +125,28 @@ m("D03", "C06", RS, "            self.random_state_,\n", "            None,\n", 
   note="RandomSampling selects with an unseeded generator")
 
 
+# ---- batch D: index wrapper, density strategies, multi-annotator base, encoders
+DU2 = "skactiveml/stream/_density_uncertainty.py"
+ENC = "skactiveml/utils/_label_encoder.py"
+m("I01", "C19", PU, "            if set_base_clf:\n                self.base_clf_ = deepcopy(self.clf_)", "            if set_base_clf:\n                self.base_clf_ = self.clf_",
+  note="native partial_fit: the base model aliases the working model")
+m("I02", "C19", PU, "                cur_idx = np.array([i not in add_idx for i in self.idx_])", "                cur_idx = np.array([i not in add_idx[:1] for i in self.idx_])",
+  note="enforce_unique_samples only removes the first re-added index")
+m("I03", "C19", PU, "                self.y_ = self.base_y_.copy()\n", "                self.y_ = self.base_y_\n",
+  note="control?: labels aliased when restarting from the base model")
+m("I04", "C19", PU, "            self.y_ = np.concatenate([self.y_[cur_idx], add_y], axis=0)", "            self.y_ = np.concatenate([self.y_, add_y], axis=0)[-len(self.idx_):]",
+  note="labels misaligned when unique samples are enforced")
+m("B01", "C07", BASE, "                n_candidate_pairs = len(candidates) * len(y.T)", "                n_candidate_pairs = len(candidates) * len(y)",
+  note="pair count uses the number of samples instead of annotators (duplicate of seeded C07)")
+m("B02", "C01,C14", BASE, "        if candidates is None:\n            ulbd_idx = unlabeled_indices(y, self.missing_label_)\n            return X[ulbd_idx], ulbd_idx",
+  "        if candidates is None:\n            ulbd_idx = np.arange(len(y))\n            return X[ulbd_idx], ulbd_idx",
+  note="candidates=None means all samples, also the labeled ones")
+m("E01", "C16", ENC, "        y_enc[~is_lbld] = -1\n", "        y_enc[~is_lbld] = 0 if len(self.classes_) == 0 else -1\n",
+  note="missing labels encoded as 0 when no class is known")
+m("E02", "C16", ENC, "        y_dec = np.empty_like(y, dtype=self._dtype)", "        y_dec = np.empty_like(y, dtype=np.asarray(self.classes_).dtype)",
+  note="decoded array uses the dtype of the classes (cannot hold a NaN / longer string sentinel)")
+m("E03", "C16,C09", ENC, "            self._dtype = np.append(self.classes, self.missing_label).dtype\n            self._le.fit(self.classes)", "            self._dtype = np.append(self.classes, self.missing_label).dtype\n            self._le.fit(list(self.classes)[::-1])",
+  note="control: LabelEncoder sorts anyway (must NOT be caught)")
 def load_extra():
     p = os.path.join(os.path.dirname(__file__), "mutants_extra.json")
     if os.path.exists(p):
